@@ -509,12 +509,37 @@ func (g *Exec) stmt(sd int) []*Node {
 			cond := Bin("<", Id(c.name), bound)
 			return []*Node{Let(c.name, Num("0")), {K: KWhile, Kids: []*Node{cond, blk}}}
 		}
-		g.push()
-		g.declare(c)
 		upd := Post("++", Id(c.name))
 		if g.R.IntN(3) == 0 {
 			upd = Asg("+=", Id(c.name), Num("1"))
 		}
+		switch shape := g.R.IntN(8); {
+		case shape == 0:
+			// let i = 0; for (; i < N; i++) body        (no initialiser)
+			g.declare(c)
+			return []*Node{Let(c.name, Num("0")), {K: KFor, Kids: []*Node{nil, Bin("<", Id(c.name), bound), upd, g.body(sd)}}}
+		case shape == 1:
+			// let i; for (i = 0; i < N; i++) body      (initialiser is an expression)
+			g.declare(c)
+			return []*Node{Let(c.name, nil), {K: KFor, Kids: []*Node{Asg("=", Id(c.name), Num("0")), Bin("<", Id(c.name), bound), upd, g.body(sd)}}}
+		case shape == 2:
+			// for (let i = 0; i < N;) { body; i++ }      (no update)
+			g.push()
+			g.declare(c)
+			blk := &Node{K: KBlock, Kids: g.block(sd-1, 3)}
+			blk.Kids = append(blk.Kids, ExprStmt(upd))
+			g.pop()
+			return []*Node{{K: KFor, Kids: []*Node{Let(c.name, Num("0")), Bin("<", Id(c.name), bound), nil, blk}}}
+		case shape == 3 && g.inFn > 0:
+			// let i = 0; for (;;) { if (i >= N) { return e } body; i++ }   (empty header, left by return)
+			g.declare(c)
+			exit := &Node{K: KIf, Kids: []*Node{Bin(">=", Id(c.name), bound), {K: KBlock, Kids: []*Node{{K: KReturn, Kids: []*Node{g.expr(g.retType[len(g.retType)-1], 1)}}}}}}
+			blk := &Node{K: KBlock, Kids: append([]*Node{exit}, g.block(sd-1, 2)...)}
+			blk.Kids = append(blk.Kids, ExprStmt(upd))
+			return []*Node{Let(c.name, Num("0")), {K: KFor, Kids: []*Node{nil, nil, nil, blk}}}
+		}
+		g.push()
+		g.declare(c)
 		f := &Node{K: KFor, Kids: []*Node{Let(c.name, Num("0")), Bin("<", Id(c.name), bound), upd, g.body(sd)}}
 		g.pop()
 		return []*Node{f}
